@@ -35,6 +35,11 @@ def units():
                          oracle=lambda rng, tier, reasons: EA.oracle(rng, tier, reasons, kinds=('mader',)),
                          note='Taylor wave of rare(): c^2 = gamma p / rho pointwise and the isentrope through the CJ state (theorem on the mirror that is definitionally '
                               'the generated code); cell averages are compared on the real code by the oracle'))
+    import guderley_corr as GDC
+    import guderley_oracle as GDO
+    out.append(flow.Unit('guderley', groups=['guderley'], props=['props/C03_guderley.v'], custom_corr=GDC.unit_corr, oracle=GDO.eos_oracle, always_oracle=True,
+                         note='Guderley: p = (gamma - 1) rho e and c^2 = gamma p / rho in every integrated branch of state(), whatever the integrator returns (theorem); '
+                              'real solver sampled in all four branches (oracle)'))
     out.append(flow.Unit('eos-real-code', groups=[], props=[], oracle=EA.oracle, always_oracle=True,
                          note='EOS consistency on the real code for both Riemann drivers with different gammas on the two sides (side decided from the contact '
                               'position), Sedov, EHEP, Mader (cell averages: tolerance 1e-4 on a fine grid) and RMTV'))
